@@ -81,10 +81,15 @@ impl RuntimeData {
                     debug!("Failed to allocate table {:?}", err);
                     ExecutionErrorPayload::OutOfMemory
                 })?;
-            let table = CaoLangTable::with_capacity(8, self.memory.clone()).map_err(|err| {
-                debug!("Failed to init table {:?}", err);
-                ExecutionErrorPayload::OutOfMemory
-            })?;
+            let table = match CaoLangTable::with_capacity(8, self.memory.clone()) {
+                Ok(table) => table,
+                Err(err) => {
+                    debug!("Failed to init table {:?}", err);
+                    // release the object cell, nothing refers to it yet
+                    self.memory.dealloc(obj_ptr, Layout::new::<CaoLangObject>());
+                    return Err(ExecutionErrorPayload::OutOfMemory);
+                }
+            };
 
             let obj_ptr: NonNull<CaoLangObject> = obj_ptr.cast();
             let obj = CaoLangObject {
@@ -217,10 +222,14 @@ impl RuntimeData {
                 })?;
 
             let layout = CaoLangString::layout(payload.len());
-            let mut ptr = self
-                .memory
-                .alloc(layout)
-                .map_err(|_| ExecutionErrorPayload::OutOfMemory)?;
+            let mut ptr = match self.memory.alloc(layout) {
+                Ok(ptr) => ptr,
+                Err(_) => {
+                    // release the object cell, nothing refers to it yet
+                    self.memory.dealloc(obj_ptr, Layout::new::<CaoLangObject>());
+                    return Err(ExecutionErrorPayload::OutOfMemory);
+                }
+            };
 
             let result: *mut u8 = ptr.as_mut();
             std::ptr::copy(payload.as_ptr(), result, payload.len());
